@@ -68,25 +68,26 @@ def classify_de(body, bb, t):
         return ('SLICE', vk, n.describe())
     if callee.endswith('de::read::Read::skip_bytes') or c.endswith('::skip_bytes'):
         return ('SKIP',)
-    if c.endswith('types::length_delimited::read_length_delimited'):
+    sf = short_fn(c) if (c.startswith('de::') or c.startswith('<de::')) else ''
+    if sf == 'read_length_delimited':
         vk = visitor_kind(t['arg_tys'][1]) if len(t.get('arg_tys', [])) > 1 else 'other'
         return ('LENDELIM', vk)
-    if c.endswith('types::length_delimited::read_len'):
+    if sf == 'read_len':
         return ('LEN',)
-    if c.endswith('types::boolean::read_bool'):
+    if sf == 'read_bool':
         return ('BOOL',)
-    if c.endswith('types::enums::read_enum_as_str'):
+    if sf == 'read_enum_as_str':
         return ('ENUMSTR',)
-    if c.endswith('types::decimal::read_decimal'):
+    if sf == 'read_decimal':
         return ('DECIMAL',)
-    if c.endswith('types::union::read_union_discriminant'):
+    if sf == 'read_union_discriminant':
         return ('DISC',)
-    if c.endswith('types::discriminant::read_discriminant'):
+    if sf == 'read_discriminant':
         return ('DISCRAW',)
-    if c.endswith('types::blocks::BlockReader::new'):
+    if sf == 'BlockReader::new':
         ign = const_int(t['args'][1])
         return ('BLOCKS', ign)
-    if c.endswith('allowed_depth::AllowedDepth::dec'):
+    if sf.endswith('::dec') and 'allowed_depth' in c or sf == 'AllowedDepth::dec':
         return ('DEC',)
     if callee.startswith('serde_core::de::Visitor::visit_'):
         return ('VISIT', callee.rsplit('::', 1)[1][len('visit_'):])
@@ -116,10 +117,16 @@ def aggregates_in(body, blocks):
     return out
 
 
-def region_tokens_de(body, blocks, facts):
+def region_tokens_de(body, blocks, facts, _depth=0):
     out = []
     for b, bb, t in calls_in(body, blocks, facts):
         tok = classify_de(b, bb, t)
+        if tok is not None and tok[0] == 'UNCLASSIFIED' and _depth < 2:
+            # a private helper taking the reader: look through it
+            cb = facts.bodies.get(cname(t))
+            if cb is not None and (cb.id.startswith('de::') or cb.id.startswith('<de::')) and cb is not body:
+                out.extend(region_tokens_de(cb, cb.live_blocks(), facts, _depth + 1))
+                continue
         if tok is not None:
             out.append((tok, b, bb, t))
     for nm, bb, s in aggregates_in(body, blocks):
